@@ -45,6 +45,7 @@ GROUP: Dict[str, str] = {
     "LinkTrekker_get_ordered_data": "Proofs/SrcTieTrekP.v",
     "LinkTrekker_order_ordered_ids_by_relation": "Proofs/SrcTieReorderP.v",
     "ExecutionPlan_validate_required_uuids_are_produced": "Proofs/SrcTieValidP.v",
+    "ComputeFramework_identify_naming_convention": "Proofs/SrcTieNameP.v",
     # round 2: options
     **{t: "Proofs/SrcTieOptP.v" for t in ("Options_get", "Options_items", "OptionsValidator_validate_can_add_to_group",
                                           "Options_add_to_group", "Options_add", "Features_merge_options",
@@ -90,6 +91,9 @@ LEMMA_TARGET = {
     **{l: "ExecutionPlan_validate_required_uuids_are_produced" for l in (
         "produced_loop_src", "missing_empty", "missing_loop_src", "validate_required_uuids_are_produced_src",
         "validate_required_uuids_are_produced_model")},
+    **{l: "ComputeFramework_identify_naming_convention" for l in (
+        "py_startswith_starts_with", "owns_src", "py_sorted_str_sort_str", "in_py_set_of_list", "name_loop2_absorb", "name_loop2_src",
+        "name_loop1_src", "name_loop4_src", "name_loop5_src", "name_loop3_src", "selected_src", "identify_naming_convention_src")},
     "options_get_src": "Options_get", "options_items_src": "Options_items",
     "validate_can_add_to_group_src": "OptionsValidator_validate_can_add_to_group",
     "options_add_to_group_src": "Options_add_to_group", "options_add_src": "Options_add",
@@ -365,6 +369,31 @@ def _space(target: str) -> Dict[str, Any]:
                 "term": lambda i, o: f"({cq_str(i['feature_name'])}, {_ob(o)})",
                 "type": "string * option bool", "req": ["MV.Model.ChainParser"],
                 "defs": OB + "Definition chk (c : string * option bool) := ob (snd c) (has_dunder (list_ascii_of_string (fst c)))."}
+    if target == "ComputeFramework_identify_naming_convention":
+        from mloda.core.abstract_plugins.compute_framework import ComputeFramework
+        from mloda.core.abstract_plugins.components.feature_name import FeatureName
+        names, colpool = ["a", "b", "ab"], ["a", "a~1", "a~2", "b", "ab", "b~z", "c"]
+        fsets = [[n for j, n in enumerate(names) if m >> j & 1] for m in range(8)]
+        csets = [list(c) for k in range(4) for c in itertools.combinations(colpool, k)]
+
+        def real_inc(i: dict) -> Any:
+            sel = {FeatureName(n) for n in i["names"]}
+            i["iter"] = [f.name for f in sel]          # the order in which THIS set object is iterated (the model's parameter)
+            r = ComputeFramework.identify_naming_convention(None, sel, set(i["cols"]), i["ordering"])  # type: ignore[arg-type]
+            return ["S", sorted(r)] if isinstance(r, set) else ["L", list(r)]
+        sl = lambda l: cq_list(cq_str(x) for x in l)  # noqa: E731
+        oterm = {None: "ONone", "alphabetical": "OAlpha", "request_order": "ORequest", "bogus": "OInvalid"}
+        ty = "(list string * list string * ordering) * option (bool * list string)"
+        return {"inputs": [{"names": f, "cols": c, "ordering": o} for f in fsets for c in csets for o in (None, "alphabetical", "request_order", "bogus")],
+                "real": real_inc,
+                "term": lambda i, o: (f"(({sl(i.get('iter', i['names']))}, {sl(i['cols'])}, {oterm[i['ordering']]}), "
+                                      + (f"Some ({cq_bool(o[0] == 'S')}, {sl(o[1])})" if isinstance(o, list) else "None") + ")"),
+                "type": ty, "req": ["MV.Model.Naming"],
+                # a set is compared as a set (the observation is sorted), a list exactly; an exception with RErr
+                "defs": "Definition seteq (a b : list string) := forallb (fun x => mem_str x b) a && forallb (fun x => mem_str x a) b.\n"
+                        f"Definition chk (c : {ty}) := match c with ((it, cols, o), obs) => match identify it cols o, obs with "
+                        "| RErr, None => true | RSet l, Some (true, l') => seteq l l' && Nat.eqb (List.length l) (List.length l') "
+                        "| RList l, Some (false, l') => if list_eq_dec string_dec l l' then true else false | _, _ => false end end."}
     if py2coq.TARGET_BY_NAME[target].gen == "SrcPlan":
         return _space_plan(target)
     if py2coq.TARGET_BY_NAME[target].gen == "SrcOpt":
